@@ -1328,6 +1328,9 @@ _CHAIN_TXT = {
                       "cursor (get_tau) is under a test of its own, or every call site establishes the bound (dominating test, increment of "
                       "a monotone cursor, range variable); otherwise an empty train is an IndexError and a non-empty one reads the wrong "
                       "neighbour."),
+    'merge_idiom': ("{rid} (=R01.1/R02.1/R03.1) the cursor-merge idiom of every kernel (lemma L1: the loop bound is the number of "
+                    "spikes of both trains as given - no spike is set aside in front of the loop -, strict three-way comparison, "
+                    "exclusive guards, single increments): a kernel that drops or doubles an event at one edge breaks the mirror image."),
     'class_ops': ("{rid} (=R09.6/R09.9) mul_scalar scales exactly the value arrays by the factor, add() is the definition's sum of two "
                   "functions: multivariate profiles are built with these two operations."),
 }
@@ -1402,7 +1405,8 @@ _CHAINS = {
             ('R08.13', 'avrg', lambda c: _class_averages(c, 'R08.13')),
             ('R08.14', 'profile_ctor', lambda c: _layer_profile_ctor(c, 'R08.14')),
             ('R08.15', 'index_precond', lambda c: _layer_index_precond(c, 'R08.15')),
-            ('R08.16', 'defaults', lambda c: _layer_defaults(c, 'R08.16'))],
+            ('R08.16', 'defaults', lambda c: _layer_defaults(c, 'R08.16')),
+            ('R08.17', 'merge_idiom', lambda c: merge_idiom_obs(c, [f for f in eng(c).families if not f.wrapper.cls], 'R08.17'))],
     'C09': [('R09.12', 'avrg', lambda c: _class_averages(c, 'R09.12', ('PieceWiseConstFunc', 'PieceWiseLinFunc')))],
     'C11': [('R11.10', 'avrg', lambda c: _class_averages(c, 'R11.10', ('DiscreteFunc',)))],
     'C10': [('R10.7', 'ownership', lambda c: r09_2_ownership(c, 'R10.7', {'PieceWiseConstFunc', 'PieceWiseLinFunc'}))],
@@ -1429,7 +1433,8 @@ _CHAINS = {
             ('R16.11', 'index_precond', lambda c: _layer_index_precond(c, 'R16.11')),
             ('R16.12', 'isi_lengths', lambda c: _layer_isi_lengths(c, 'R16.12')),
             ('R16.13', 'class_ops', lambda c: _layer_class_ops(c, 'R16.13')),
-            ('R16.14', 'avrg', lambda c: _class_averages(c, 'R16.14', ('DiscreteFunc',)))],
+            ('R16.14', 'avrg', lambda c: _class_averages(c, 'R16.14', ('DiscreteFunc',))),
+            ('R16.15', 'discrete_defs', lambda c: _layer_discrete_defs(c, 'R16.15'))],
     'C17': [('R17.6', 'defaults', lambda c: _layer_defaults(c, 'R17.6')),
             ('R17.7', 'reconcile', lambda c: _layer_reconcile(c, (_SYN,), 'R17.7')),
             ('R17.8', 'isi_lengths', lambda c: _layer_isi_lengths(c, 'R17.8'))],
